@@ -17,7 +17,7 @@ META = {
              "non-trivial = (by the model) the last-ending operation of some (sub-)circuit is not a relation leaf or the earliest-starting one is not a head"),
     "assumptions": ["reference model qv/model.py; span computed from the library's own reported operation times at the same step as well"],
     "floors": {
-        "quick": {"durations_compared": 40000, "growth_rereads": 3000, "registry_reassignments": 10000, "follower_checks": 5000, "empty_circuits": 1000, "label_non-leaf-last-end": 1000, "label_early-start": 3000, "label_nested-block-early-start": 500},
+        "quick": {"durations_compared": 40000, "growth_rereads": 3000, "forms_compared": 20000, "group_follower_checks": 2000, "registry_reassignments": 10000, "follower_checks": 5000, "empty_circuits": 1000, "label_non-leaf-last-end": 1000, "label_early-start": 3000, "label_nested-block-early-start": 500},
         "thorough": {"durations_compared": 500000, "follower_checks": 50000, "empty_circuits": 10000},
     },
 }
@@ -145,6 +145,39 @@ def check_program(prog: Dict[str, Any], acc: Acc, flags=None):
                 acc.finding("duration/span-after-growth", "duration of the circuit after a sub-circuit grew is not the span of the reported operation times", case,
                             {"duration": rep3, "span": span3})
             break
+        # ---- the same program unrolled, and flattened: duration == span of the reported times, and whatever follows a group of
+        #      operations (repeated copies, flattened blocks) starts after ALL of them have ended
+        for form in ("unrolled", "flattened"):
+            fresh = bp.build(prog, bp.Ctx(prog.get("settings"))).top.circuit
+            try:
+                circ = fresh.apply_modifiers() if form == "unrolled" else fresh.flatten()
+            except RecursionError:
+                raise
+            ops_f = circ.operations
+            if not ops_f or len(ops_f) > 250:
+                continue
+            raw_f, sh_f = snap.raw_times(ops_f), snap.shadow_times(ops_f)
+            acc.count("forms_compared")
+            rep_f = snap.raw_value(lambda: float(circ.duration))
+            span_f = max(e for _, e in sh_f) - min(s0 for s0, _ in sh_f)
+            if any(abs(a[0] - b[0]) > TOL or abs(a[1] - b[1]) > TOL for a, b in zip(raw_f, sh_f)):
+                acc.finding("stale-memo/" + form, f"times reported for the {form} circuit differ from the memo-free evaluation", case, None)
+            elif abs(rep_f - span_f) > TOL:
+                acc.finding("duration/span-" + form, f"duration of the {form} circuit is not the span of its operation times", case, {"duration": rep_f, "span": span_f})
+            pos_f = {id(o): k for k, o in enumerate(ops_f)}
+            for k, op in enumerate(ops_f):
+                li = snap.link_info(op)
+                if li["kind"] != "multi" or li["type"] != "FOLLOWED_BY" or not li["refs"]:
+                    continue
+                members = [pos_f.get(id(r)) for r in li["refs"] if not snap.is_composite(r)]
+                if len(members) != len(li["refs"]) or any(m is None for m in members):
+                    continue
+                acc.count("group_follower_checks")
+                last = max(sh_f[m][1] for m in members)
+                if sh_f[k][0] < last - TOL:
+                    acc.finding("follower-overlaps-group", f"an operation that follows a group of operations ({form}) starts before all of them have ended", case,
+                                {"start": sh_f[k][0], "group_end": last, "group_size": len(members)})
+                    break
     memo_shadow.drain()
 
 
